@@ -15,6 +15,15 @@ impl<K, N, E> Heap<K, N, E> {
         ensures *r == self.cell(n.k())
     { unimplemented!() }
 
+    // R4d: a shared guard that stays live across other heap accesses (for-iterator, match scrutinee, let-bound guard):
+    // the guarded cell as it is when the guard is taken. Faithful because R4b makes every access to the same cell
+    // while the guard is live an obligation `guard_distinct` (RefCell would panic, RwLock self-deadlock).
+    #[verifier::external_body]
+    pub fn adj_snap(&self, n: &Node<K, N, E>) -> (r: Adjacent<K, N, E>)
+        requires self.dom().contains(n.k())
+        ensures r == self.cell(n.k())
+    { unimplemented!() }
+
     #[verifier::external_body]
     pub fn adj_mut(&mut self, n: &Node<K, N, E>) -> (r: &mut Adjacent<K, N, E>)
         requires old(self).dom().contains(n.k())
